@@ -103,6 +103,9 @@ def ground_axioms(terms):
                     new += [z3.Implies(z3.InRe(sarg, byte_re()), fwd(a, z3.Length(sarg)) == sarg)]
             elif nm == 'hexlify':
                 sarg = a.arg(0)
+                if 'hex-empty' not in done:
+                    done.add('hex-empty')
+                    new += [bm._HEX(mk_str('')) == mk_str('')]
                 new += [z3.Length(a) == 2 * z3.Length(sarg), z3.InRe(a, hexre), bm._UNHEX(a) == sarg]
             elif nm == 'unhexlify':
                 sarg = a.arg(0)
@@ -123,7 +126,16 @@ def ground_axioms(terms):
                         z3.Implies(z3.InRe(sarg, bm.ascii_re()), a == sarg), z3.Length(a) <= z3.Length(sarg)]
             elif nm.startswith('H_'):
                 from .stdmodels import HASH_SIZES
+                import hashlib
                 new += [z3.Length(a) == HASH_SIZES[nm[2:]], z3.InRe(a, byte_re())]
+                # agreement with the real function on the empty input (paths where symbolic pieces are empty)
+                empty = ('H-empty', nm)
+                if empty not in done:
+                    done.add(empty)
+                    new += [a.decl()(mk_str('')) == mk_str(b2s(hashlib.new(nm[2:], b'').digest()))]
+                arg = z3.simplify(a.arg(0))
+                if z3.is_string_value(arg):
+                    new += [a == mk_str(b2s(hashlib.new(nm[2:], s2b(unescape_smt(arg.as_string()))).digest()))]
             elif nm == 'utf8_valid':
                 sarg = a.arg(0)
                 new += [z3.Implies(z3.InRe(sarg, bm.ascii_re()), a)]
